@@ -149,6 +149,29 @@ pub fn run(args: &Args) -> Report {
             }
             hays.push(h);
         }
+        // systematic placement: one occurrence of a pattern at every position of haystacks of every
+        // length up to 72 (every (length, position) class of the vector window loops and their
+        // tail handling), filler = a byte that occurs in no pattern
+        let mut sys_hays: Vec<Vec<u8>> = vec![];
+        if let Some(filler) = (0..=255u8).rev().find(|b| !pats.iter().any(|p| p.contains(b))) {
+            let picks: Vec<&Vec<u8>> = [pats.first(), pats.last()].iter().filter_map(|x| *x).filter(|p| !p.is_empty() && p.len() <= 12).collect();
+            for (pi, p) in picks.iter().enumerate() {
+                if pi == 1 && std::ptr::eq(*p, picks[0]) {
+                    continue;
+                }
+                for l in p.len()..=72 {
+                    for pos in 0..=(l - p.len()) {
+                        // thin the product: every position for lengths in the last-window classes, every 3rd otherwise
+                        if l > 40 && (pos + l) % 3 != 0 && l - pos - p.len() > 20 && pos > 20 {
+                            continue;
+                        }
+                        let mut h = vec![filler; l];
+                        h[pos..pos + p.len()].copy_from_slice(p);
+                        sys_hays.push(h);
+                    }
+                }
+            }
+        }
         // near misses of the longer patterns: exactly one byte changed, at every position
         for p in pats.iter().filter(|p| p.len() >= 8 && p.len() <= 48).take(6) {
             let mut h = vec![b'.'; 20];
@@ -177,6 +200,17 @@ pub fn run(args: &Args) -> Report {
                 };
                 rep.count(&format!("built[{:?}]", var), 1);
                 let _ = vi;
+                // the systematic placements: whole haystack, and with the first / last byte cut off
+                for h in &sys_hays {
+                    check(&rep, var, kind, pats, &s, h, 0, h.len());
+                    if h.len() > 1 {
+                        check(&rep, var, kind, pats, &s, h, 0, h.len() - 1);
+                        check(&rep, var, kind, pats, &s, h, 1, h.len());
+                    }
+                    if rep.full() {
+                        return;
+                    }
+                }
                 for h in &hays {
                     if h.len() <= 20 {
                         for st in 0..=h.len() {
